@@ -671,8 +671,8 @@ def gen_multidyn(rng, name, codes, bytes_bounds, array_bounds, combo=None):
     return {"name": name, "params": shape, "clauses": clauses}
 
 
-def gen_special(rng, name, codes):
-    op = rng.choice(SPECIAL_OPS)
+def gen_special(rng, name, codes, op=None):
+    op = op or rng.choice(SPECIAL_OPS)
     a, b = ["arg", 0], ["arg", 1]
     MIN = 1 << 255
     if op == "mul":
@@ -695,13 +695,14 @@ def gen_special(rng, name, codes):
     return {"name": name, "params": ["uint256", "uint256"], "clauses": clauses}
 
 
-def gen_directed_contract(rng, code_opt=None, n_each=2, combos=None):
+def gen_directed_contract(rng, code_opt=None, n_each=2, combos=None, ops=None):
     codes = parse_codes(code_opt)
     bytes_bounds, array_bounds = [0, 65, 1024], [0, 1, 2]
     tests = []
     for k in range(n_each):
         tests.append(gen_reread(rng, f"check_rr{k}", codes))
-        tests.append(gen_special(rng, f"check_sp{k}", codes))
+    for k, op in enumerate(ops if ops is not None else [None] * n_each):
+        tests.append(gen_special(rng, f"check_sp{k}", codes, op))
     for k, combo in enumerate(combos if combos is not None else [None] * n_each):
         tests.append(gen_multidyn(rng, f"check_md{k}", codes, bytes_bounds, array_bounds, combo))
     return {"cname": "T", "setup": [], "tests": tests}
